@@ -46,7 +46,7 @@ def by_target(x):
 
 def out_name(t, d):
     on = d.get("on", "out")
-    if d["kind"] == "dir":
+    if d["kind"] in ("dir", "dirc"):
         return "t%d.dir" % t if on == "out" else "t%d.%s.dir" % (t, on)
     if d["kind"] == "txt":
         return "t%d.txt" % t if on == "out" else "t%d.%s.txt" % (t, on)
@@ -57,7 +57,7 @@ def name_of(of):
     """Spec NameOf term -> the basename a command sees: <<"src", f>> or <<"out", t, kind, n>>."""
     if of[0] == "src":
         return of[1] + ".txt"
-    kind = {"file": "cat", "text": "txt", "dir": "dir"}[of[2]]
+    kind = {"file": "cat", "text": "txt", "dir": "dir", "dirc": "dir"}[of[2]]
     return out_name(of[1], dict(kind=kind, on=of[3]))
 
 
@@ -89,10 +89,13 @@ def render_target(t, d, logpath, extra=None):
     elif d["kind"] == "dir":
         first = ('n=$(cat "$SRCS_F")' if d["files"] else 'n=e')
         body = 'mkdir "$OUT"; %s; printf "%s" > "$OUT/$n"' % (first, k)
+    elif d["kind"] == "dirc":
+        first = ('n=$(cat "$SRCS_F")' if d["files"] else 'n=e')
+        body = 'mkdir "$OUT"; %s; printf "%s(%%s)" "$n" > "$OUT/$n"' % (first, k)
     else:
         raise vlib.Infra("unknown kind %s" % d["kind"])
     cmd = pre + body + post
-    if d["kind"] == "dir" and d["files"]:
+    if d["kind"] in ("dir", "dirc") and d["files"]:
         # named srcs so that the first source file is addressable whatever else is in srcs
         s = '{"f": ["%s.txt"], "rest": [%s]}' % (d["files"][0], ", ".join(srcs[1:]))
     else:
@@ -125,6 +128,9 @@ def emit_item(it):
     if it["kind"] == "dir":
         n = it["args"][0]["c"] if it["args"] else "e"
         return "%s=%s;" % (n, it["k"])
+    if it["kind"] == "dirc":
+        n = it["args"][0]["c"] if it["args"] else "e"
+        return "%s=%s(%s);" % (n, it["k"], n)
     raise vlib.Infra("cannot emit %s" % it)
 
 
@@ -141,6 +147,9 @@ def expected_snapshot(t, d, tree):
     if tree["kind"] == "dir":
         n = tree["args"][0]["c"] if tree["args"] else "e"
         return {out_name(t, d): ["dir", {n: ["file", tree["k"]]}]}
+    if tree["kind"] == "dirc":
+        n = tree["args"][0]["c"] if tree["args"] else "e"
+        return {out_name(t, d): ["dir", {n: ["file", "%s(%s)" % (tree["k"], n)]}]}
     if tree["kind"] == "group":
         return None   # names of a filegroup's outputs are derived by the harness, contents compared via clean build
     raise vlib.Infra("bad tree %s" % tree)
